@@ -25,6 +25,7 @@ used by the engine).
 -/
 import RegexVerif.Lemmas.Facts
 import RegexVerif.Lemmas.SetFacts
+import RegexVerif.Lemmas.LoopFacts
 import RegexVerif.Model.Scan
 
 namespace RegexVerif.Props.C04
@@ -550,5 +551,194 @@ example : leadingPrefixOldAlt utf8enc defectPat = [97, 98] := by decide
 example : leadingPrefix utf8enc defectPat = ([97], false) := by decide
 example : find defectEnv defectPat false 0 = some { pos := 3, caps := [(1, 0, 1), (0, 0, 3)] } := by decide
 example : ¬ ((defectEnv.text.drop 0).flatMap utf8enc).take 2 = leadingPrefixOldAlt utf8enc defectPat := by decide
+
+/-! ## facts about a leading set loop: the required-landmark chain and the literal after the loop
+
+`findRequiredLandmarkChain` and `findLiteralFollowingLeadingLoop` are validated, not mirrored
+(Model/LoopFacts.lean): Lean computes from the converted tree a record of the same shape and the theorems
+below prove it true of every left-to-right match, in exactly the form the finders of C03 consume
+(`LandmarkFact`, `LitAfterLoopFact`).  Leg L checks per pattern that the published record is that record
+(sets compared rune by rune; landmarks may be missing from the tail). -/
+
+section LoopFacts
+open RegexVerif.LoopFacts RegexVerif.Finders RegexVerif.Lemmas.Finders RegexVerif.Lemmas.LoopFacts
+
+/-- the specification's attempt as C03's scan model sees it (group 0) -/
+def attemptSpan (e : Env) (p : Pat) : Nat → Option (Nat × Nat) :=
+  fun i => (attempt e p false i).bind (fun st => lastCap st.caps 0)
+
+/-- **The required-landmark chain is a fact about every match.**  If `chainOf k p = some sc` (the top
+    concatenation of `p` starts with an unbounded loop over one character test, followed by zero-width
+    children and then landmarks), then at every position where the specification matches: a run of
+    loop characters, then whitespace of the first landmark, then an alternative of the first landmark as
+    `requiredLandmarkAlternativeMatch` tests it, then every later landmark in order, no earlier than the
+    previous core start plus the shortest width of the alternative used.  This is `LandmarkFact`, the
+    hypothesis of `C03.finder_landmarkChain_sound`, for the chain read under the matcher's own oracle. -/
+theorem landmarkChain_sound (e : Env) (k : Nat) (p : Pat) (sc : SymChain) (h : chainOf k p = some sc) :
+    ∃ l ls, sc.landmarks = l :: ls ∧
+      LandmarkFact (sc.loop.test e) (l.map (SymAlt.toLm e)) (lmOf e ls) e.text (attemptSpan e p) :=
+  chainOf_fact e k p sc h
+
+/-- **A published chain that is Lean's chain, possibly without some later landmarks, is sound**: the same
+    loop set (as a set of runes), the same first landmark, and the remaining landmarks a sublist of Lean's. -/
+theorem published_landmarkChain_sound (e : Env) (k : Nat) (p : Pat) (sc : SymChain) (h : chainOf k p = some sc)
+    (S : Nat → Bool) (first : List LmAlt) (rest : List (List LmAlt))
+    (hS : ∀ r, S r = sc.loop.test e r)
+    (hfirst : ∀ l ls, sc.landmarks = l :: ls → first = l.map (SymAlt.toLm e) ∧ List.Sublist rest (lmOf e ls)) :
+    LandmarkFact S first rest e.text (attemptSpan e p) := by
+  obtain ⟨l, ls, hl, hF⟩ := landmarkChain_sound e k p sc h
+  obtain ⟨h1, h2⟩ := hfirst l ls hl
+  have : S = sc.loop.test e := funext hS
+  rw [this, h1]
+  exact landmarkFact_sublist _ _ h2 _ _ hF
+
+/-- the hypotheses of `published_landmarkChain_sound` are met by Lean's own chain with its second landmark
+    dropped (any sublist of the later landmarks will do) -/
+example (e : Env) (ls : List (List SymAlt)) : List.Sublist (lmOf e ls.tail) (lmOf e ls) := by
+  unfold lmOf; exact (List.tail_sublist ls).map _
+
+/-- `[xy]*\s*ab(?:cd|c)z` (4 children): loop over {x, y}; landmarks `\s*ab`, `cd | c`, `z` -/
+def lmPat : Pat :=
+  .seq (.quant false 0 none (.chr (.set (.base false [(120, 121)] []) false)))
+    (.seq (.cap 1 (.seq (.quant false 0 none (.chr (.set (.base false [(32, 32)] []) false)))
+                    (.seq (.chr (.one 97 false)) (.chr (.one 98 false)))))
+      (.seq (.alt (.seq (.chr (.one 99 false)) (.chr (.one 100 false))) (.chr (.one 99 false)))
+        (.chr (.one 122 false))))
+def lmEnv : Env := { text := [120, 32, 97, 98, 99, 122], textstart := 0, named := [], word := [], fold := [] }
+
+example : ∃ sc, chainOf 4 lmPat = some sc ∧ sc.landmarks.length = 3 ∧ (sc.landmarks.map List.length) = [1, 2, 1] :=
+  ⟨_, rfl, by decide⟩
+example : attemptSpan lmEnv lmPat 0 = some (0, 6) ∧ attemptSpan lmEnv lmPat 1 = some (1, 5) ∧
+    attemptSpan lmEnv lmPat 3 = none := by decide
+
+/-- **The literal after the leading loop is a fact about every match** (character tests): if `lalOf k p =
+    some sl`, from every matching position a run of the loop's test leads to a position where the tests of
+    `sl.lit` hold one after the other. -/
+theorem literalAfterLoop_sound (e : Env) (k : Nat) (p : Pat) (sl : SymLal) (h : lalOf k p = some sl) :
+    ∀ p0, p0 ≤ e.text.length → attemptSpan e p p0 ≠ none →
+      ∃ kk, p0 ≤ kk ∧ (∀ j, p0 ≤ j → j < kk → memAt (sl.loop.test e) e.text j = true) ∧
+        ∀ i (hi : i < sl.lit.length), memAt ((sl.lit[i]'hi).test e) e.text (kk + i) = true :=
+  lalOf_fact e k p sl h
+
+/-- **… and in the form of `tryFindPrefix`**: the rune prefix of what follows the loop (whatever its shape:
+    alternation with a common prefix, loop with a minimum, capture) stands where the loop's run ends. -/
+theorem literalAfterLoop_prefix_sound (e : Env) (p : Pat) (P : Pred) (w : List Nat) (h : lalPrefixOf p = some (P, w)) :
+    w ≠ [] ∧ ∀ p0, p0 ≤ e.text.length → attemptSpan e p p0 ≠ none →
+      ∃ kk, p0 ≤ kk ∧ (∀ j, p0 ≤ j → j < kk → memAt (P.test e) e.text j = true) ∧ ∃ t, e.text.drop kk = w ++ t := by
+  obtain ⟨h1, h2⟩ := lalPrefixOf_at e p P w h
+  exact ⟨h1, fun p0 _ hne => at_attempt e p _ h2 p0 hne⟩
+
+/-- **The facts of the body of a leading positive lookahead are facts of the pattern's match starts**
+    (`newFindOptimizations` publishes the body's `FindOptimizations` when the pattern itself yields
+    nothing): the landmark chain, the literal after the loop (character tests) and its prefix form,
+    computed from the body `b = leadLook p`, hold at every position where `p` matches. -/
+theorem look_loopFacts_sound (e : Env) (p b : Pat) (kf : Bool) (hlook : leadLook p = (some b, kf)) (k : Nat) :
+    (∀ sc, chainOf k b = some sc → ∃ l ls, sc.landmarks = l :: ls ∧
+      LandmarkFact (sc.loop.test e) (l.map (SymAlt.toLm e)) (lmOf e ls) e.text (attemptSpan e p)) ∧
+    (∀ sl, lalOf k b = some sl → ∀ p0, p0 ≤ e.text.length → attemptSpan e p p0 ≠ none → LalAt e sl p0) ∧
+    (∀ P w, lalPrefixOf b = some (P, w) → ∀ p0, p0 ≤ e.text.length → attemptSpan e p p0 ≠ none → PrefAt e P w p0) := by
+  refine ⟨?_, ?_, ?_⟩
+  · intro sc h
+    obtain ⟨l, ls, hl, hat⟩ := chainOf_at e k b sc h
+    exact ⟨l, ls, hl, fun p0 _ hne => look_attempt e p b kf hlook _ hat p0 hne⟩
+  · intro sl h p0 _ hne
+    exact look_attempt e p b kf hlook _ (lalOf_at e k b sl h) p0 hne
+  · intro P w h p0 _ hne
+    exact look_attempt e p b kf hlook _ (lalPrefixOf_at e b P w h).2 p0 hne
+
+/-- `(?=[xy]*ab)…`: the facts of the lookahead body `[xy]*ab` -/
+example : leadLook (.seq (.look false false lalPat) (.chr (.one 120 false))) = (some lalPat, false) := rfl
+
+/-- what leg L checks of a published `LiteralAfterLoop` against Lean's character tests: the string's
+    characters (under the comparison the finder selects), or `Chars`, or `Char`, include the tests -/
+def LalIncluded (e : Env) (lower : Nat → Nat) (l : LitAfterLoop) (lit : List Pred) : Prop :=
+  if !l.str.isEmpty then
+    l.str.length ≤ lit.length ∧
+    ∀ i (h1 : i < l.str.length) (h2 : i < lit.length) r, (lit[i]'h2).test e r = true →
+      stringEq lower l.strIgnoreCase l.str r (l.str[i]'h1) = true
+  else if !l.chars.isEmpty then ∃ Q qs, lit = Q :: qs ∧ ∀ r, Q.test e r = true → l.chars.contains r = true
+  else ∃ Q qs, lit = Q :: qs ∧ ∀ r, Q.test e r = true → r = l.char
+
+/-- **A published `LiteralAfterLoop` that includes Lean's record is sound**: its loop set contains the
+    loop's test and its literal (string / `Chars` / `Char`) includes the character tests — then
+    `LitAfterLoopFact`, the hypothesis of `C03.finder_literalAfterLoop_sound`, holds. -/
+theorem lalAt_included (e : Env) (sl : SymLal) (lower : Nat → Nat) (l : LitAfterLoop) (S : Nat → Bool)
+    (hS : ∀ r, sl.loop.test e r = true → S r = true) (hinc : LalIncluded e lower l sl.lit)
+    (p0 : Nat) (hat : LalAt e sl p0) :
+    ∃ k, p0 ≤ k ∧ l.litAt lower e.text k = true ∧ ∀ j, p0 ≤ j → j < k → memAt S e.text j = true := by
+  obtain ⟨kk, k1, k2, k3⟩ := hat
+  refine ⟨kk, k1, ?_, ?_⟩
+  · unfold LalIncluded at hinc
+    unfold LitAfterLoop.litAt
+    by_cases hs : (!l.str.isEmpty) = true
+    · rw [if_pos hs] at hinc ⊢
+      obtain ⟨hlen, hchar⟩ := hinc
+      unfold occursAt
+      rw [Lemmas.BoyerMoore.prefixOf_iff]
+      intro j hj
+      have hj2 : j < sl.lit.length := by omega
+      have hm := k3 j hj2
+      simp only [memAt] at hm
+      cases ht : e.text[kk + j]? with
+      | none => rw [ht] at hm; simp at hm
+      | some t =>
+        rw [ht] at hm
+        exact ⟨t, l.str[j]'hj, by rw [List.getElem?_drop]; exact ht, by simp, hchar j hj hj2 t hm⟩
+    · rw [if_neg hs] at hinc ⊢
+      by_cases hc : (!l.chars.isEmpty) = true
+      · rw [if_pos hc] at hinc ⊢
+        obtain ⟨Q, qs, hq, hsub⟩ := hinc
+        have hm := k3 0 (by rw [hq]; simp)
+        simp only [hq, List.getElem_cons_zero, Nat.add_zero, memAt] at hm ⊢
+        cases ht : e.text[kk]? with
+        | none => rw [ht] at hm; simp at hm
+        | some t => rw [ht] at hm; simp only []; exact hsub t hm
+      · rw [if_neg hc] at hinc ⊢
+        obtain ⟨Q, qs, hq, hsub⟩ := hinc
+        have hm := k3 0 (by rw [hq]; simp)
+        simp only [hq, List.getElem_cons_zero, Nat.add_zero, memAt] at hm
+        cases ht : e.text[kk]? with
+        | none => rw [ht] at hm; simp at hm
+        | some t => rw [ht] at hm; simp [hsub t hm]
+  · intro j j1 j2
+    have := k2 j j1 j2
+    simp only [memAt] at this ⊢
+    cases ht : e.text[j]? with
+    | none => rw [ht] at this; simp at this
+    | some t => rw [ht] at this; simp only []; exact hS t this
+
+theorem published_literalAfterLoop_sound (e : Env) (k : Nat) (p : Pat) (sl : SymLal) (h : lalOf k p = some sl)
+    (lower : Nat → Nat) (l : LitAfterLoop) (S : Nat → Bool)
+    (hS : ∀ r, sl.loop.test e r = true → S r = true) (hinc : LalIncluded e lower l sl.lit) :
+    LitAfterLoopFact lower l S e.text (attemptSpan e p) :=
+  fun p0 hp0 hne => lalAt_included e sl lower l S hS hinc p0 (lalOf_fact e k p sl h p0 hp0 hne)
+
+/-- the same when the record comes from the body of a leading positive lookahead -/
+theorem published_look_literalAfterLoop_sound (e : Env) (p b : Pat) (kf : Bool) (hlook : leadLook p = (some b, kf))
+    (k : Nat) (sl : SymLal) (h : lalOf k b = some sl)
+    (lower : Nat → Nat) (l : LitAfterLoop) (S : Nat → Bool)
+    (hS : ∀ r, sl.loop.test e r = true → S r = true) (hinc : LalIncluded e lower l sl.lit) :
+    LitAfterLoopFact lower l S e.text (attemptSpan e p) :=
+  fun p0 hp0 hne => lalAt_included e sl lower l S hS hinc p0
+    ((look_loopFacts_sound e p b kf hlook k).2.1 sl h p0 hp0 hne)
+
+/-- `[xy]*ab…`: loop {x, y}, literal tests `a`, `b`; the published record `String = "ab"` includes them -/
+def lalPat : Pat :=
+  .seq (.quant false 0 none (.chr (.set (.base false [(120, 121)] []) false)))
+    (.seq (.chr (.one 97 false)) (.seq (.chr (.one 98 false)) (.chr (.set (.base false [(99, 100)] []) false))))
+
+example : lalOf 4 lalPat = some ⟨.set (.base false [(120, 121)] []) false,
+    [.one 97 false, .one 98 false, .set (.base false [(99, 100)] []) false]⟩ := rfl
+example : LalIncluded lmEnv id { str := [97, 98], loopSet := some (fun c => c == 120 || c == 121) }
+    [.one 97 false, .one 98 false, .set (.base false [(99, 100)] []) false] := by
+  unfold LalIncluded
+  simp only [List.isEmpty_cons, Bool.not_false, if_true]
+  refine ⟨by decide, ?_⟩
+  intro i h1 h2 r hr
+  have : i = 0 ∨ i = 1 := by simp at h1; omega
+  rcases this with rfl | rfl <;> simp [Pred.test] at hr <;> subst hr <;> simp [stringEq, eqExact]
+example : lalPrefixOf lalPat = some (.set (.base false [(120, 121)] []) false, [97, 98]) := rfl
+
+end LoopFacts
 
 end RegexVerif.Props.C04
